@@ -1,7 +1,7 @@
 \* C20 state graph (dumped with -dump dot,actionlabels): all 2-call histories; its (writer, reader, table) triples are the replay coverage goal
 CONSTANTS
   MaxDepth = 2
-  BaseSel = "memo"
+  BaseSel = "graph"
   LaySel = "C"
   ProjKeyMode = "full"
   DbetaKeyMode = "full"
@@ -13,6 +13,7 @@ CONSTANTS
   PerturbMode = "pure"
   HashMode = "ordered"
   SFSMode = "copies"
+  KernelMode = "stateless"
   MaxTable = 60
 SPECIFICATION Spec
 CHECK_DEADLOCK FALSE
